@@ -25,7 +25,7 @@ Section Trace.
   (* once the outcome is determined, further events are irrelevant: no further call is made, and the
      whole result is a function of the consumed prefix *)
   Lemma resolve_loop_prefix fuel : forall st next added (tr : list event) n log tr2,
-    is_mismatch (fst (fst (resolve_loop O veqb fuel st next added tr n log))) = false ->
+    is_mismatch (fst (fst (fst (resolve_loop O veqb fuel st next added tr n log)))) = false ->
     resolve_loop O veqb fuel st next added (tr ++ tr2) n log = resolve_loop O veqb fuel st next added tr n log.
   Proof.
     induction fuel as [|fuel IH]; intros st next added tr n log tr2; cbn [resolve_loop]; [reflexivity|].
@@ -56,7 +56,7 @@ Section Trace.
   Qed.
 
   Theorem resolve_prefix fuel r v (tr tr2 : list event) :
-    is_mismatch (fst (fst (resolve O veqb fuel r v tr))) = false ->
+    is_mismatch (fst (fst (fst (resolve O veqb fuel r v tr)))) = false ->
     resolve O veqb fuel r v (tr ++ tr2) = resolve O veqb fuel r v tr.
   Proof. apply resolve_loop_prefix. Qed.
 
@@ -94,7 +94,7 @@ Section Trace.
   Hypothesis veqb_eq : forall a b, veqb a b = true -> a = b.
 
   Lemma resolve_loop_explained fuel : forall st next added (tr : list event) n log,
-    outcome_explained tr (fst (fst (resolve_loop O veqb fuel st next added tr n log))).
+    outcome_explained tr (fst (fst (fst (resolve_loop O veqb fuel st next added tr n log)))).
   Proof.
     induction fuel as [|fuel IH]; intros st next added tr n log; cbn [resolve_loop]; [exact I|].
     destruct tr as [|[ok| | |] tr1]; cbn [fst]; try exact I.
@@ -133,6 +133,6 @@ Section Trace.
   Qed.
 
   Theorem resolve_outcome_explained fuel r v (tr : list event) :
-    outcome_explained tr (fst (fst (resolve O veqb fuel r v tr))).
+    outcome_explained tr (fst (fst (fst (resolve O veqb fuel r v tr)))).
   Proof. apply resolve_loop_explained. Qed.
 End Trace.
